@@ -511,8 +511,70 @@ def check(chk):
            text="both states registered")
 
     _more_rules(chk, repo)
+    _ignore_window(chk, repo)
     _time_string_parsers(chk, repo)
     _raw_state_readers(chk, repo)
+
+
+def _ignore_window(chk, repo):
+    """RECYCLE-3 (ignore_window_ms): the first change opens the window, posts the events of its state and books a wake-up for the end of
+    the window that remembers which state was announced; changes inside the window post nothing; when the window ends it is closed
+    first, and the events of the *current* state are posted exactly when it differs from the announced one - in either direction -
+    so that the last posted event always agrees with the switch."""
+    from sa.cfg import canon_set, canon_fact
+    from sa.helpers import positive
+    w = repo.func(SW, "Switch._post_events_with_recycle")
+    r = repo.func(SW, "Switch._recycle_passed")
+    ini = repo.func(SW, "Switch._initialize")
+    chk.analysed(w, r)
+    cfg = w.cfg()
+    st = [n for n in cfg.nodes if n.kind == "stmt" and isinstance(n.ast, ast.Assign) and src(n.ast.targets[0]) == "self.recycle_clear_time"]
+    ca = [(n, c) for n, c in cfg.calls_named("call_at")]
+    po = [(n, c) for n, c in cfg.calls_named("_post_events")]
+    chk.need(len(st) == 1 and len(ca) == 1 and len(po) == 1, "RECYCLE-3", "_post_events_with_recycle opens the window, books its end and posts", w)
+    want = positive({canon_fact("self.recycle_clear_time", False)})
+    for n in (st[0], ca[0][0], po[0][0]):
+        got = positive(set(canon_set(cfg.guards_at(n.id))))
+        chk.ob("RECYCLE-3", "outside a window - and only then - a change opens one, books its end and is announced", got == want, w.where(n.ast),
+               detail="guards %s" % sorted(got), construct=w.ident, text="window opening guard " + n.text(30))
+    ok = src(st[0].ast.value).replace(" ", "") in ("self.last_change+self.recycle_secs", "self.recycle_secs+self.last_change")
+    chk.ob("RECYCLE-3", "the window ends recycle_secs after the change that opened it", ok, w.where(st[0].ast), detail=src(st[0].ast.value), construct=w.ident,
+           text="window end")
+    c = ca[0][1]
+    ok = len(c.args) == 2 and src(c.args[0]) == "self.recycle_clear_time" and isinstance(c.args[1], ast.Call) and call_attr(c.args[1]) == "partial" and \
+        [src(a) for a in c.args[1].args] == ["self._recycle_passed", "state"] and cfg.dominates(st[0].id, ca[0][0].id)
+    chk.ob("RECYCLE-3", "the wake-up is booked for the end of the window and remembers the announced state", ok, w.where(c), construct=w.ident, text="window wake-up")
+    chk.ob("RECYCLE-3", "the change that opens the window is announced with its own state", [src(a) for a in po[0][1].args] == ["state"], w.where(po[0][1]),
+           construct=w.ident, text="window opening announcement")
+    rc = r.cfg()
+    cl = [n for n in rc.nodes if n.kind == "stmt" and isinstance(n.ast, ast.Assign) and src(n.ast.targets[0]) == "self.recycle_clear_time" and src(n.ast.value) == "None"]
+    pp = [(n, c) for n, c in rc.calls_named("_post_events")]
+    chk.need(len(cl) == 1 and len(pp) == 1, "RECYCLE-3", "_recycle_passed closes the window and catches up", r)
+    ok = not rc.guards_at(cl[0].id) and rc.must_pass(rc.entry.id, [cl[0].id], ends=[rc.exit.id]) is None and rc.dominates(cl[0].id, pp[0][0].id)
+    chk.ob("RECYCLE-3", "the window is closed on every path, before the catch-up is posted (a change caused by it opens a new one)", ok, r.where(cl[0].ast),
+           construct=r.ident, text="window closed first")
+    got = positive(set(canon_set(rc.guards_at(pp[0][0].id))))
+    ok = got == positive({canon_fact("self.state != state", True)}) and [src(a) for a in pp[0][1].args] == ["self.state"]
+    chk.ob("RECYCLE-3", "at the end of the window the current state is announced exactly when it differs from the announced one (either direction)", ok,
+           r.where(pp[0][1]), detail="guards %s; posts %s" % (sorted(got), [src(a) for a in pp[0][1].args]), construct=r.ident, text="window catch-up")
+    # which poster is registered
+    icfg = ini.cfg()
+    regs = [(n, c) for n, c in icfg.calls_named("add_handler") if dotted(c.func.value) == "self" and kwarg(c, "callback") is not None]
+    n_r = 0
+    for n, c in regs:
+        cb = src(kwarg(c, "callback"))
+        if cb not in ("self._post_events_with_recycle", "self._post_events"):
+            continue
+        n_r += 1
+        g = icfg.guards_at(n.id).get("self.recycle_secs")
+        chk.ob("RECYCLE-3", "the windowed poster is registered exactly when an ignore window is configured", g is (cb == "self._post_events_with_recycle"),
+               ini.where(c), construct=ini.ident, text="poster choice " + cb)
+    chk.ob("RECYCLE-3", "event posters registered", n_r == 4, ini.where(), detail=str(n_r), nontrivial=False)
+    rs = [x for x in walk_local(ini.node) if isinstance(x, ast.Assign) and src(x.targets[0]) == "self.recycle_secs"]
+    ok = len(rs) == 1 and src(rs[0].value).replace(" ", "") in ("self.config['ignore_window_ms']/1000.0", "self.config['ignore_window_ms']/1000") and \
+        all(icfg.dominates(icfg.by_ast[id(rs[0])][0], n.id) for n, c in regs) if rs and id(rs[0]) in icfg.by_ast else False
+    chk.ob("RECYCLE-3", "the window length is ignore_window_ms in seconds, known before the posters are chosen", ok, ini.where(), construct=ini.ident,
+           text="window length")
 
 
 def _more_rules(chk, repo):
@@ -838,6 +900,11 @@ def battery():
         M("twin: == platform guard", SC, "                if switch.platform != platform:\n                    continue\n                try:\n                    switch.state = switch_states[number] ^ switch.invert\n                except (IndexError, KeyError):", "                if switch.platform == platform:\n                  try:\n                    switch.state = switch_states[number] ^ switch.invert\n                  except (IndexError, KeyError):", None),
         M("unit-less hold time of a configured switch event read as seconds", SW, "            ms = Util.string_to_ms(ev_time)", "            ms = int(Util.string_to_secs(ev_time) * 1000)", "UNIT-1"),
         M("switch query answers from the raw level", SC, "            return switch.state == state and ms <= switch.get_ms_since_last_change()", "            return switch.hw_state == state and ms <= switch.get_ms_since_last_change()", "OWN-6"),
+        M("window catch-up only after a hit opened it", SW, "        if self.state != state:\n            self._post_events(self.state)", "        if state and not self.state:\n            self._post_events(self.state)", "RECYCLE-3"),
+        M("catch-up announces the remembered state", SW, "        if self.state != state:\n            self._post_events(self.state)", "        if self.state != state:\n            self._post_events(state)", "RECYCLE-3"),
+        M("window closed after the catch-up", SW, "        self.recycle_clear_time = None\n        # only post event if the switch toggled\n        if self.state != state:\n            self._post_events(self.state)", "        # only post event if the switch toggled\n        if self.state != state:\n            self._post_events(self.state)\n        self.recycle_clear_time = None", "RECYCLE-3"),
+        M("window measured from now instead of from the change", SW, "self.recycle_clear_time = self.last_change + self.recycle_secs", "self.recycle_clear_time = self.machine.clock.get_time() + self.recycle_secs", "RECYCLE-3"),
+        M("window length in ms", SW, "self.recycle_secs = self.config['ignore_window_ms'] / 1000.0", "self.recycle_secs = self.config['ignore_window_ms']", ["RECYCLE-3", "UNIT-1"]),
     ]
 
 
